@@ -72,6 +72,9 @@ fn handle_update_schema<TCompilationProfile: CompilationProfile>(
 
                 return schema_not_found_diagnostic().wrap_err();
             }
+            // A file was renamed onto the schema path (e.g. an editor saving atomically):
+            // the schema has new contents.
+            db.get_standard_sources_mut().tracked().schema_source_id = read_schema(db, &schema)?;
         }
         SourceEventKind::Remove(_) => {
             db.remove(db.get_standard_sources().untracked().schema_source_id);
